@@ -16,6 +16,11 @@ fn main() {
         };
         std::process::exit(if r.is_ok() { 0 } else { 1 });
     }
+    if let Some(k) = args.iter().position(|a| a == "--c08-worker") {
+        // probe --c08-worker FILE START: inputs are the lines of FILE (hex), processed from index START
+        verif_harness::props::c08::worker(&args[k + 1], args[k + 2].parse().unwrap_or(0));
+        return;
+    }
     let mut s = String::new();
     std::io::stdin().read_to_string(&mut s).unwrap();
     let srcs: Vec<String> = s.split("\n----\n").map(|x| x.to_string()).collect();
